@@ -23,14 +23,21 @@ from .common import is_call_of, loop_of, share_rule, strip_identity_wrappers
 
 
 def check(model: Model, rep: Report, tier: str):
-    f1(model, rep)
-    f2(model, rep)
-    f3(model, rep, "C11.F3")
+    with rep.isolated():
+        f1(model, rep)
+    with rep.isolated():
+        f5(model, rep)
+    with rep.isolated():
+        f2(model, rep)
+    with rep.isolated():
+        f3(model, rep, "C11.F3")
     from .c01 import r6
     from .c02 import l5
-    share_rule(rep, model, r6, "C11.F4", "rebuilding the graph places every listed operation exactly once, under its reference or (when that reference was a dissolved "
-               "sub-circuit) behind the channel leaf found by a real leaf query (= C01.R6); the listing that is rebuilt from expands every node in place (= C02.L5)")
-    share_rule(rep, model, l5, "C11.F4", "")
+    with rep.isolated():
+        share_rule(rep, model, r6, "C11.F4", "rebuilding the graph places every listed operation exactly once, under its reference or (when that reference was a dissolved "
+                   "sub-circuit) behind the channel leaf found by a real leaf query (= C01.R6); the listing that is rebuilt from expands every node in place (= C02.L5)")
+    with rep.isolated():
+        share_rule(rep, model, l5, "C11.F4", "")
     rep.rules_text["C11.F4"] = ("rebuilding the graph places every listed operation exactly once, under its reference or behind the channel leaf found by a real leaf query "
                                 "(= C01.R6); the listing that is rebuilt from expands every node in place (= C02.L5)")
 
@@ -88,6 +95,54 @@ def f1(model: Model, rep: Report):
                   required="exactly one add_to_graph(fresh graph, element) per listed element, no filter", what="flattening loses, duplicates or filters leaf operations: " + "; ".join(bad), detail="adds")
         rep.check(p.value == s or p.exit == "fall", "C11.F1", construct + "[returns self]", f.loc, found=show(p.value) if p.value else None, required="self", what="flatten is not in place", detail="return")
     rep.floor("paths of apply_flatten_to_self", n, 1)
+
+
+STRUCTURAL = ("_circuit_graph", "repetition_strategy", "_outgoing_pointers", "_incoming_pointers", "_structure", "_added_operations")
+
+
+def f5(model: Model, rep: Report):
+    """F5: flatten does nothing but flatten -- no other structural mutator of the block runs on the way (unrolling, repeating, adding)."""
+    rep.rule("C11.F5", "apply_flatten_to_self calls no other structural mutator on the block: every method it invokes on self (or on the block's graph) besides the rebuild itself has a "
+                       "transitive write set (call graph + effect analysis) free of graph / repetition-count locations -- e.g. unrolling pending repetitions while flattening "
+                       "changes the multiset of leaf operations")
+    from ..effects import Effects
+    from ..resolve import CallGraph
+    K = model.cls("CircuitCompositeOperation")
+    f = K.resolve("apply_flatten_to_self")
+    cg = CallGraph(model)
+    ef = Effects(model, cg)
+    s_name = f.self_name
+    bad = []
+    seen = []
+    work = [f]
+    bodies = []
+    while work:
+        g = work.pop()
+        if g in bodies:
+            continue
+        bodies.append(g)
+        for n in ast.walk(g.node):
+            if isinstance(n, ast.Call) and isinstance(n.func, ast.Attribute) and isinstance(n.func.value, ast.Name) and n.func.value.id == g.self_name:
+                m = K.resolve(n.func.attr)
+                if m is not None and m.name.startswith("_") and not m.name.startswith("__") and m.kind == "method":
+                    work.append(m)          # a private helper is a piece of flatten itself (F1 reads it in place): look inside
+    calls = []
+    for g in bodies:
+        for n in ast.walk(g.node):
+            if isinstance(n, ast.Call) and isinstance(n.func, ast.Attribute) and isinstance(n.func.value, ast.Name) and n.func.value.id == g.self_name:
+                calls.append(n)
+    for n in calls:
+        if True:
+            m = K.resolve(n.func.attr)
+            if m is None or m in bodies or m in seen:
+                continue
+            seen.append(m)
+            ws = [(w, path) for w, path in ef.transitive_writes([m]) if w.attr in STRUCTURAL or w.attr.startswith("_cached")]
+            if ws:
+                w, path = ws[0]
+                bad.append(f"self.{n.func.attr}() writes {w.attr} (via {' -> '.join(g.qualname for g in path)})")
+    rep.check(not bad, "C11.F5", "CircuitCompositeOperation.apply_flatten_to_self[no other mutator]", f.loc, found="; ".join(bad) or f"methods called on self: {[m.name for m in seen]} -- none writes structure",
+              required="only the rebuild changes the block", what="flattening also runs another structural mutation of the block: " + "; ".join(bad), detail="other-mutator")
 
 
 def f2(model: Model, rep: Report):
